@@ -134,6 +134,10 @@ def gen_cases(rng, tier, scale):
                                   ('{{#with xs.[0]}}{{#with nope}}T{{else}}F{{/with}}{{k}}{{/with}}|{{k}}', 'F1|ROOT'),
                                   ('{{#each xs}}{{#with a}}T{{else if p}}P{{else}}F{{/with}}{{k}}{{/each}}', 'F1T2P3')]):
         cases.append(rcase(f'wsc{i}', t, XS, entry=4, kind='izchain', exp=exp, tags=['falsy-with-in-scope']))
+    for i, (t, d, exp) in enumerate([('{{#if a}}A{{else with b as |x|}}{{x.n}}{{else}}E{{/if}}', {'b': {'n': 5}}, '5'), ('{{#if a}}A{{else with b as |x|}}{{x.n}}{{else}}E{{/if}}', {'a': 1, 'b': {'n': 5}}, 'A'),
+                                     ('{{#if a}}A{{else each xs as |v k|}}{{k}}{{v}};{{else}}E{{/if}}', {'xs': [7, 8]}, '07;18;'), ('{{#unless a}}U{{else with b as |x|}}{{x}}{{/unless}}', {'a': True, 'b': 'B'}, 'B'),
+                                     ('{{#with a as |p|}}{{p}}{{else each xs as |v|}}{{v}}{{else}}E{{/with}}', {'xs': []}, 'E')]):
+        cases.append(rcase(f'lbp{i}', t, d, entry=4, kind='izchain', exp=exp, tags=['chain-link-block-params']))
     LAY = {'layout': '[{{> title}}]{{> @partial-block}}', 'title': 'default'}
     for i, (t, d, exp) in enumerate([
             ('{{#> layout}}{{#if a}}yes{{else}}{{#*inline "title"}}custom{{/inline}}no{{/if}}{{/layout}}', {'a': True}, '[default]yes'),
